@@ -7,6 +7,7 @@ import (
 	"encoding/json"
 	"fmt"
 	"reflect"
+	"runtime/debug"
 	"strings"
 	"unsafe"
 
@@ -40,6 +41,7 @@ func runC06(c *Ctx) Result {
 	t := c.T
 	if c06Arena == nil {
 		c06Arena = newArena(64)
+		debug.SetPanicOnFault(true)
 	}
 	g := &gen{t: t, o: genOpts{MaxDepth: 3, MaxWidth: 4, Escapes: true, Spaces: true, BigObject: true}}
 	z := &zoo{g: g, cb: g.d(3) == 0, maxDep: 2 + g.d(2)}
@@ -181,7 +183,21 @@ func runC06(c *Ctx) Result {
 			name = fmt.Sprintf("EncodeInto(len=%d,cap=%d,guard=%v,opts=%#x,out=%d)", pl, capN, guard, int(opts), len(ref))
 			hist = append(hist, name)
 			b := buf
-			err := encoder.EncodeInto(&b, v, opts)
+			var err error
+			faulted := func() (f string) {
+				// a store to the guard page raised inside generated code becomes a recoverable panic
+				defer func() {
+					if x := recover(); x != nil {
+						f = fmt.Sprint(x)
+					}
+				}()
+				err = encoder.EncodeInto(&b, v, opts)
+				return ""
+			}()
+			if faulted != "" {
+				res.Fatal = true // pooled encoder state was abandoned mid-way: recycle the process
+				return fail("encodeinto-wrote-past-capacity", name+": the encoder touched the unmapped page right after the buffer's capacity ("+clip(faulted, 80)+")")
+			}
 			if (err != nil) != (rerr != nil) {
 				return fail("encodeinto-error-differs", fmt.Sprintf("%s: %v vs Encode: %v", name, err, rerr))
 			}
